@@ -421,11 +421,18 @@ def check_cases(cases, ctx, rep: Report, with_model=True):
                 rep.count('full_model_cases')
 
 
+CLI_MINE = ('exception', 'hang', 'snapshot_unreadable', 'snapshot_objects', 'snapshot_name', 'recorded_files', 'stored_bytes', 'restore_mismatch', 'referenced_chunk_missing')
+
+
 def run(ctx) -> Report:
     rep = Report(rule=RULE)
     n = ctx.scale(140, 2500)
     cases = corpus_cases() + [gen_case(ctx.rng) for _ in range(n)]
     check_cases(cases, ctx, rep)
+    # the round trip through the tool as a user runs it (fresh `python -m replicat` processes, repository on disk, several
+    # path arguments incl. spellings that are prefixes of one another), judged by an independent walker and an independent reader
+    from harness import cli_hist
+    cli_hist.run_scenarios(ctx, rep, {'plain': ctx.scale(5, 50)}, CLI_MINE)
     return rep
 
 
@@ -438,6 +445,10 @@ def search(ctx, broken) -> Report:
 
 
 def replay(ctx, obj):
+    from harness import cli_hist
+    rc = cli_hist.replay_cli(ctx, obj, CLI_MINE)
+    if rc is not None:
+        return rc
     rep = Report(rule=RULE)
     case = obj.get('replay') or {}
     if 'tree' not in case:
